@@ -19,10 +19,11 @@ RULE = 'R-EQHASH'
 # property served by each class (which parser's data structure it is)
 CLASS_PROPS = {
     'lark.parsers.cyk:Rule': ['C03'], 'lark.parsers.cyk:UnitSkipRule': ['C03'],
-    'lark.parsers.earley_forest:PackedNode': ['C04', 'C20'], 'lark.parsers.earley_forest:TokenNode': ['C04', 'C20'],
-    'lark.parsers.earley_common:Item': ['C04', 'C20'],
-    'lark.lexer:Token': ['C03', 'C04', 'C20'], 'lark.tree:Tree': ['C03', 'C04', 'C20'],
-    'lark.grammar:Symbol': ['C03', 'C04', 'C20'], 'lark.grammar:Rule': ['C03', 'C04', 'C20'],
+    # (C05: which families survive in a symbol node's set decides what priority resolution can choose from)
+    'lark.parsers.earley_forest:PackedNode': ['C04', 'C05', 'C20'], 'lark.parsers.earley_forest:TokenNode': ['C04', 'C05', 'C20'],
+    'lark.parsers.earley_common:Item': ['C04', 'C05', 'C20'],
+    'lark.lexer:Token': ['C03', 'C04', 'C05', 'C20'], 'lark.tree:Tree': ['C03', 'C04', 'C20'],
+    'lark.grammar:Symbol': ['C03', 'C04', 'C05', 'C20'], 'lark.grammar:Rule': ['C03', 'C04', 'C05', 'C20'],
     'lark.lexer:Pattern': ['C03'], 'lark.parsers.grammar_analysis:RulePtr': ['C03'],
 }
 CONSTRUCTORS = {'__init__', '__new__', '_deserialize', 'deserialize', '_future_new', '__post_init__'}
@@ -238,3 +239,77 @@ def run(ctx: Ctx) -> RuleResult:
     res.tables['eq_only_unhashable_classes'] = eq_only
     res.require_instances(both, MIN_BOTH, 'classes with both __eq__ and __hash__')
     return res
+
+
+# ------------------------------------------------------------------------------------------------
+def run_identity(ctx: Ctx) -> RuleResult:
+    """R-IDENTITY-EQ [C08 C13]: two values of a class that defines value equality are not compared with `is`.
+    Wrappers such as InteractiveParser are created afresh around the same state (every failing parse_from_state
+    attaches a new one to the exception), so an identity test between two of them is never true where equality
+    is: the "same state again" guard of the on_error loop then never fires and parse() does not terminate.
+    Comparisons with a module-level singleton / sentinel / class / None, and `self is other` shortcuts inside
+    __eq__, are the accepted uses of `is`."""
+    repo, ty = ctx.repo, ctx.typer
+    res = RuleResult('R-IDENTITY-EQ', 'values of classes with value equality are not compared by identity')
+
+    def singleton(f: FuncInfo, e: ast.AST) -> bool:
+        if isinstance(e, ast.Constant):
+            return True
+        if isinstance(e, ast.Name):
+            # a module-level name (sentinel instance, class, function), not a local
+            local = e.id in {a.arg for a in f.params()} or any(
+                isinstance(x, ast.Name) and x.id == e.id and isinstance(x.ctx, ast.Store) for x in f.body_nodes())
+            g = f.parent
+            while g is not None and not local:
+                local = e.id in {a.arg for a in g.params()} or any(
+                    isinstance(x, ast.Name) and x.id == e.id and isinstance(x.ctx, ast.Store) for x in g.body_nodes())
+                g = g.parent
+            return not local
+        if isinstance(e, ast.Attribute) and isinstance(e.value, ast.Name):
+            ts = ty.expr(f, e.value)
+            return any(t.startswith(('T:', 'M:')) for t in ts)       # Class.SENTINEL / module.NAME
+        return False
+
+    def eq_classes(ts) -> List[str]:
+        out = []
+        for t in ts:
+            if t.startswith('C:'):
+                k = repo.classes.get(t[2:])
+                if k is not None and k.find_method('__eq__') is not None:
+                    out.append(k.qual)
+        return sorted(out)
+
+    n = 0
+    for f in repo.functions.values():
+        if f.module.name.startswith('lark.tools'):
+            continue
+        env = None
+        for c in f.body_nodes():
+            if not (isinstance(c, ast.Compare) and len(c.ops) == 1 and isinstance(c.ops[0], (ast.Is, ast.IsNot))):
+                continue
+            n += 1
+            l, r = c.left, c.comparators[0]
+            site = '%s %s' % (f.module.loc(c), f.qual)
+            if singleton(f, l) or singleton(f, r):
+                res.ob(site, '%s: identity with a constant / module-level singleton / class attribute' % norm(c), True)
+                continue
+            if f.name in ('__eq__', '__ne__') and f.self_name() in (norm(l), norm(r)):
+                res.ob(site, '%s: identity shortcut inside %s' % (norm(c), f.name), True)
+                continue
+            if env is None:
+                env = ty.env(f)
+            kl, kr = eq_classes(ty.expr(f, l, env)), eq_classes(ty.expr(f, r, env))
+            ok = not (kl and kr)
+            res.ob(site, '%s: operands are not both instances of classes with value equality (%s / %s)' % (norm(c), kl or '-', kr or '-'), ok)
+            if not ok:
+                res.finding(f, c, '`%s` compares two %s objects by identity although the class defines __eq__: distinct wrappers around the '
+                            'same state are equal but never identical, so a "same as before" test written with `is` never holds'
+                            % (norm(c), kl[0].split(':')[1]), construct='identity:%s' % _shape(c))
+    res.require_instances(n, 20, 'identity comparisons')
+    return res
+
+
+def _shape(c: ast.Compare) -> str:
+    def tail(e):
+        return e.attr if isinstance(e, ast.Attribute) else type(e).__name__
+    return '%s-%s' % (tail(c.left), tail(c.comparators[0]))
